@@ -16,7 +16,6 @@ import (
 	"go.opentelemetry.io/collector/config/configretry"
 	"go.opentelemetry.io/collector/consumer/consumererror"
 	"go.opentelemetry.io/collector/exporter/exporterhelper"
-	"go.opentelemetry.io/collector/exporter/exportertest"
 	"go.opentelemetry.io/collector/verifharness/sig"
 	"go.opentelemetry.io/collector/verifharness/vt"
 	"go.opentelemetry.io/collector/verifharness/xh"
@@ -36,6 +35,10 @@ type Cfg struct {
 	BatchMin int `json:"batch_min,omitempty"`
 	// Signal: "" = logs; traces | metrics | profiles use that signal's request type and storage encoding.
 	Signal string `json:"signal,omitempty"`
+	// Sibling: a second exporter of this (different) signal with the SAME component id and the same storage
+	// extension lives next to the first in every incarnation — one exporter in pipelines of two signals.  Each
+	// has a persistent queue of its own ("one storage per signal").
+	Sibling string `json:"sibling,omitempty"`
 }
 
 func (c Cfg) signal() string {
@@ -48,9 +51,14 @@ func (c Cfg) signal() string {
 // curSignal is the signal of the script being run (scripts run one at a time).
 var curSignal = sig.Logs
 
+// curSibling is the sibling exporter's signal of the script being run ("" = none).
+var curSibling string
+
 // OpS is one step of the main run.
 type OpS struct {
 	Kind string `json:"kind"` // enq | rel | restart
+	// enq: offer to the sibling exporter (ignored when there is none)
+	Sib bool `json:"sib,omitempty"`
 	// enq: number of items (log records) of the request, default 1
 	Items int `json:"items,omitempty"`
 	// rel: which parked hand-off (index modulo the number parked) and its outcome
@@ -138,6 +146,7 @@ type mainRun struct {
 	rec     *xh.Recorder
 	inc     int
 	exp     *xh.Exporter
+	sib     *xh.Exporter // sibling exporter (other signal, same id, same storage) or nil
 	mu      sync.Mutex
 	parked  []*parked
 	backoff int // hand-offs that returned a transient error with retry enabled (consumer stays busy)
@@ -187,14 +196,27 @@ func (m *mainRun) startIncarnation() *vt.Finding {
 	m.backoff = 0
 	m.parked = nil
 	m.mu.Unlock()
-	exp, err := xh.NewExporter(curSignal, exportertest.NewNopSettings(xh.Type), m.push, options(m.cfg)...)
+	exp, err := xh.NewExporter(curSignal, xh.NopSettings(), m.push, options(m.cfg)...)
 	if err != nil {
 		return vt.Failf("harness/new", "NewExporter: %v", err)
 	}
 	m.exp = exp
+	m.sib = nil
+	if m.cfg.Sibling != "" {
+		sib, err := xh.NewExporter(m.cfg.Sibling, xh.NopSettings(), m.push, options(m.cfg)...)
+		if err != nil {
+			return vt.Failf("harness/new", "NewExporter (sibling): %v", err)
+		}
+		m.sib = sib
+	}
 	m.rec.Event("start", 0, m.inc)
 	var serr error
-	ok, _ := vt.WithWatchdog(5*time.Second, func() { serr = xh.StartThenCancel(exp, xh.HostWith(m.rec)) })
+	ok, _ := vt.WithWatchdog(5*time.Second, func() {
+		serr = xh.StartThenCancel(exp, xh.HostWith(m.rec))
+		if serr == nil && m.sib != nil {
+			serr = xh.StartThenCancel(m.sib, xh.HostWith(m.rec))
+		}
+	})
 	if !ok {
 		return vt.Failf("start-blocks/main", "Start of incarnation %d did not return within 5s", m.inc)
 	}
@@ -256,7 +278,13 @@ func (m *mainRun) release(pick int, outcome string) bool {
 func (m *mainRun) shutdown(outcomes []string) *vt.Finding {
 	m.rec.Event("shutdown", 0, m.inc)
 	done := make(chan error, 1)
-	go func() { done <- m.exp.Shutdown(context.Background()) }()
+	go func() {
+		err := m.exp.Shutdown(context.Background())
+		if m.sib != nil {
+			err = errors.Join(err, m.sib.Shutdown(context.Background()))
+		}
+		done <- err
+	}()
 	k := 0
 	deadline := time.After(20 * time.Second)
 	tick := time.NewTicker(500 * time.Microsecond)
@@ -299,7 +327,13 @@ func runMain(s *Script) (*xh.Recorder, *vt.Finding, map[string]int) {
 			}
 			m.nextID += int64(n)
 			ctx, cancel := context.WithTimeout(context.Background(), 30*time.Millisecond)
-			err := m.exp.Consume(ctx, payload(id, n))
+			var err error
+			if op.Sib && m.sib != nil {
+				err = m.sib.Consume(ctx, sig.Simple(m.cfg.Sibling, id, n))
+				stats["offered-to-sibling"]++
+			} else {
+				err = m.exp.Consume(ctx, payload(id, n))
+			}
 			cancel()
 			if err == nil {
 				for i := 0; i < n; i++ {
@@ -365,11 +399,22 @@ func recoverOn(cfg Cfg, contents map[string][]byte, must map[int64]bool) recover
 		return nil
 	}
 	res := recovery{handed: handed}
-	exp, err := xh.NewExporter(curSignal, exportertest.NewNopSettings(xh.Type), push, options(cfg)...)
+	exp, err := xh.NewExporter(curSignal, xh.NopSettings(), push, options(cfg)...)
 	if err != nil {
 		panic(err)
 	}
-	ok, _ := vt.WithWatchdog(3*time.Second, func() { _ = xh.StartThenCancel(exp, xh.HostWith(rec)) })
+	var sib *xh.Exporter
+	if cfg.Sibling != "" {
+		if sib, err = xh.NewExporter(cfg.Sibling, xh.NopSettings(), push, options(cfg)...); err != nil {
+			panic(err)
+		}
+	}
+	ok, _ := vt.WithWatchdog(3*time.Second, func() {
+		_ = xh.StartThenCancel(exp, xh.HostWith(rec))
+		if sib != nil {
+			_ = xh.StartThenCancel(sib, xh.HostWith(rec))
+		}
+	})
 	if !ok {
 		res.hung = "start"
 		res.log = rec.Log()
@@ -403,7 +448,12 @@ func recoverOn(cfg Cfg, contents map[string][]byte, must map[int64]bool) recover
 		break
 	}
 	idle.Stop()
-	ok, _ = vt.WithWatchdog(10*time.Second, func() { _ = exp.Shutdown(context.Background()) })
+	ok, _ = vt.WithWatchdog(10*time.Second, func() {
+		_ = exp.Shutdown(context.Background())
+		if sib != nil {
+			_ = sib.Shutdown(context.Background())
+		}
+	})
 	if !ok {
 		res.hung = "shutdown"
 	}
@@ -444,13 +494,18 @@ func bodiesIn(contents map[string][]byte) map[int64]string {
 	for k, v := range contents {
 		func() {
 			defer func() { _ = recover() }()
-			val, err := sig.Decode(curSignal, v)
-			if err != nil {
-				return
-			}
-			for _, id := range idsOf(val) {
-				if id > 0 {
-					out[id] = k
+			for _, sg := range []string{curSignal, curSibling} {
+				if sg == "" {
+					continue
+				}
+				val, err := sig.Decode(sg, v)
+				if err != nil {
+					continue
+				}
+				for _, id := range idsOf(val) {
+					if id > 0 {
+						out[id] = k
+					}
 				}
 			}
 		}()
@@ -578,8 +633,11 @@ func run(s Script) (nontrivial bool, key string, f *vt.Finding) {
 	b, _ := json.Marshal(s)
 	h := sha256.Sum256(b)
 	key = string(h[:])
-	curSignal = s.Cfg.signal()
+	curSignal, curSibling = s.Cfg.signal(), s.Cfg.Sibling
 	cQ.Class("signal:" + curSignal)
+	if curSibling != "" {
+		cQ.Class("sibling-exporter-same-id")
+	}
 	rec, f, stats := runMain(&s)
 	if f != nil {
 		return true, key, f
@@ -659,6 +717,15 @@ func gen(all bool) func(t *rapid.T) Script {
 			Block:     rapid.IntRange(0, 4).Draw(t, "block") == 0,
 		}
 		s.Cfg.Signal = rapid.SampledFrom([]string{"", "", "", "traces", "metrics", "profiles"}).Draw(t, "signal")
+		if rapid.IntRange(0, 3).Draw(t, "sibling") == 0 {
+			var others []string
+			for _, sg := range sig.All {
+				if sg != s.Cfg.signal() {
+					others = append(others, sg)
+				}
+			}
+			s.Cfg.Sibling = rapid.SampledFrom(others).Draw(t, "sibling_signal")
+		}
 		if rapid.IntRange(0, 2).Draw(t, "legacy_batcher") == 0 {
 			s.Cfg.BatchMax = rapid.IntRange(1, 3).Draw(t, "batch_max")
 			s.Cfg.BatchMin = rapid.IntRange(0, s.Cfg.BatchMax).Draw(t, "batch_min")
@@ -670,7 +737,7 @@ func gen(all bool) func(t *rapid.T) Script {
 		for i := 0; i < n; i++ {
 			switch k := rapid.IntRange(0, 9).Draw(t, "op"); {
 			case k <= 4:
-				s.Ops = append(s.Ops, OpS{Kind: "enq", Items: rapid.IntRange(1, 4).Draw(t, "items")})
+				s.Ops = append(s.Ops, OpS{Kind: "enq", Items: rapid.IntRange(1, 4).Draw(t, "items"), Sib: s.Cfg.Sibling != "" && rapid.Bool().Draw(t, "sib")})
 			case k <= 8:
 				s.Ops = append(s.Ops, OpS{Kind: "rel", Pick: rapid.IntRange(0, 2).Draw(t, "pick"),
 					Outcome: rapid.SampledFrom([]string{"ok", "ok", "perm", "transient", "transient"}).Draw(t, "outcome")})
